@@ -24,15 +24,18 @@ ATOMS = ["text", "{{a}}", "{{a|x}}", "{{b|y}}", "{{loop}}", "{{l1}}", "{{arg}}",
          "{{#if:x|{{a}}|{{b}}}}", "{{lc:ABC}}", "{{nosuch}}", "{{{p}}}", "{{{p|{{a}}}}}",
          "[[link|{{a}}]]", "[http://x {{a}}]", "<nowiki>{{a}}</nowiki>", "{{#expr:1/0}}",
          "{{padleft:x|5}}", "{{#switch:x|x={{a}}}}", "{{a|{{b|{{a|q}}}}}}", "{{#time:Y|now}}",
-         "{{#titleparts:a/b/c|1}}", "{{unknownfn:}}", "{{#unknown:z}}", "{{PAGENAME}}", "{{a\n|x\n}}"]
+         "{{#titleparts:a/b/c|1}}", "{{unknownfn:}}", "{{#unknown:z}}", "{{PAGENAME}}", "{{a\n|x\n}}",
+         # argument names that are computed: empty, blank, numeric, a call
+         "{{:Pg}}", "{{:Pg|x}} {{a}}", "{{b|{{:Pg}}}}", "{{:Nosuchpage}}",      # transclusion of a main-namespace page
+         "{{a|{{{nope|}}}=v}}", "{{b|{{{nope| }}}=v|w}}", "{{a|{{lc:K}}=v}}", "{{a|{{a}}=v|{{{q|1}}}=z}}", "{{a|=v}}"]
 
 
 def pages():
     out = list(ATOMS)
-    while len(out) < NPAGES:
+    while len(out) < max(NPAGES, len(ATOMS) + 8):
         k = rng.randint(2, 4)
         out.append(" ".join(rng.choice(ATOMS) for _ in range(k)))
-    return out[:NPAGES]
+    return out
 
 
 SEL = [("core.py", "Wtp.expand"),
@@ -85,6 +88,9 @@ seen_cases = set()
 samples = []
 
 ctx = new_ctx(TEMPLATES, parser_function_aliases={"#invoque": "#invoke", "#si": "#if", "minus": "lc"})
+for c_ in (ctx,):
+    c_.add_page("Pg", 0, "P{{a|{{{1|}}}}}<noinclude>doc</noinclude>")
+    c_.db_conn.commit()
 ATOMS += ["{{#invoque:m|f}}", "{{#invoque:m}}", "{{#si:x|{{a}}|n}}", "{{minus:ABC}}"]
 # a context with template override functions, and pages whose hooks raise inside lazily expanded arguments
 ctx_ov = new_ctx(TEMPLATES, template_override_funcs={"a": lambda args: "OV" + str(len(args)), "ov": lambda args: "{{b|o}}"})
